@@ -856,22 +856,32 @@ fn configure_build(
                 );
 
                 // 2. find ninja rule by lookup of the source file's extension
-                let ext = srcpath.extension().unwrap();
-
-                let rule = rules.get(ext).unwrap();
-
-                let ninja_rule = module_rules.get(ext).unwrap();
+                // (the extension may have changed through variable expansion)
+                let (rule, ninja_rule) = srcpath
+                    .extension()
+                    .and_then(|ext| Some((rules.get(ext)?, module_rules.get(ext)?)))
+                    .ok_or_else(|| {
+                        anyhow!(
+                            "no rule found for \"{}\" (expanded from \"{}\") of module \"{}\"",
+                            srcpath,
+                            source,
+                            module.name
+                        )
+                    })?;
+                let rule_out = rule.out.as_ref().ok_or_else(|| {
+                    anyhow!(
+                        "rule \"{}\" has no \"out\" extension configured (needed for \"{}\")",
+                        rule.name,
+                        srcpath
+                    )
+                })?;
                 let rule_hash = ninja_rule.get_hash(None);
 
                 // 3. determine output path (e.g., name of C object file)
                 let out_ext = if rule.shareable {
-                    &format!(
-                        "{}.{}",
-                        rule_hash ^ build_deps_hash,
-                        &rule.out.as_ref().unwrap()
-                    )
+                    &format!("{}.{}", rule_hash ^ build_deps_hash, rule_out)
                 } else {
-                    rule.out.as_ref().unwrap()
+                    rule_out
                 };
 
                 let out = srcpath.with_extension(out_ext);
